@@ -5,7 +5,8 @@ Line protocol for C19 (simulation order from a flowsheet).
 
   graph <n> o=<per unit, `;`-separated: outlet stream ids `.`-separated> i=<same for inlets>
             k=<per stream: sink unit or `-`, `,`-separated> c=<per stream: source unit or `-`>
-                                            → ok
+                                            → ok   (followed by ` hyp-failed:<name>` for every hypothesis of
+                                                    the theorems that the graph does not meet)
   feeds <F_mass per feed, `,`-separated>    → order=<indices after sort_feeds_big_to_small>
   dfs <feed stream> e=<ends> u=<units>      → W=[path>recycle;…] L=[path;…] E=[ends afterwards, sorted]
   sort e=<ends> ( u0 ( u1 u2 r7 ) u3 )      → ( … ) warn=<number of "could not be determined" warnings>
@@ -82,7 +83,13 @@ def step (st : St) (line : String) : St × String :=
     match n.toNat?, (dropKey "o=" o).bind parsePerUnit, (dropKey "i=" i).bind parsePerUnit,
           (dropKey "k=" k).bind parseOptIds, (dropKey "c=" c).bind parseOptIds with
     | some n, some o, some i, some k, some c =>
-      ({ g := { n := n, outs := o, ins := i, snk := k, src := c } }, "ok")
+      let g : Graph := { n := n, outs := o, ins := i, snk := k, src := c }
+      -- hypothesis monitors of the theorems: `Graph.SinksOK`, `outs.length ≤ n`, every unit has an outlet
+      let sinksOK := k.all fun x => match x with | some v => decide (v < n) | none => true
+      let hyp := (if sinksOK then "" else " hyp-failed:SinksOK") ++
+                 (if o.length ≤ n then "" else " hyp-failed:outs-length") ++
+                 (if (List.range n).all (fun u => !(g.outsOf u).isEmpty) then "" else " hyp-failed:unit-without-outlet")
+      ({ g := g }, "ok" ++ hyp)
     | _, _, _, _, _ => bad st
   | ["feeds", f] =>
     match parseIds ',' f with
